@@ -1,9 +1,11 @@
 package main
 
 import (
+	"bytes"
 	"encoding/json"
 	"fmt"
 	"os"
+	"strings"
 	"sync"
 
 	"github.com/oasisprotocol/oasis-core/go/common/crypto/hash"
@@ -28,6 +30,8 @@ func (o op) String() string {
 		return fmt.Sprintf("ins(%x,%q)", o.Key, o.Val)
 	case "rem":
 		return fmt.Sprintf("rem(%x)", o.Key)
+	case "get":
+		return fmt.Sprintf("get(%x)", o.Key)
 	}
 	return o.Op
 }
@@ -290,8 +294,11 @@ func runC02(r *ev.Run) {
 	// Phase 4: backends, tiny caches, reopen, write-log replay.
 	c02Backends(r, sub, subVals, subOps, violate)
 
+	// Phase 5: cache pressure over several commits.
+	c02Pressure(r, violate)
+
 	r.Alias("traces_validated_against_impl", "transitions")
-	r.Set("rule", "phase1: all contents over 8 keys x {absent,\"\",a,b}, 4 constructions, root == contents-only canonical hash, roots injective; phase2: closure (every letter from every canonical state yields the canonical physical shape); phase3: commit, all op sequences <= L over the sub-alphabet, commit; phase4: same on badger/pathbadger with cache capacity 1/2/unbounded, reopen at root, write-log replay")
+	r.Set("rule", "phase1: all contents over 8 keys x {absent,\"\",a,b}, 4 constructions, root == contents-only canonical hash, roots injective; phase2: closure (every letter from every canonical state yields the canonical physical shape); phase3: commit, all op sequences <= L over the sub-alphabet, commit; phase4: same on badger/pathbadger with cache capacity 1/2/unbounded, reopen at root, write-log replay; phase5: a 10-key tree (paths of up to 5 nodes) reopened with node caches of 6, 7, 8 and unlimited: every sequence of 3 (thorough 4) rounds, a round being get+remove+commit or insert+commit of one of 5 keys; after every commit the root equals the contents-only hash and every key reads back")
 	r.Assume("SHA-512/256 (common/crypto/hash) is trusted and collision free on the explored universe", "keys outside the 8-key alphabet and values other than \"\", a, b are not covered")
 	r.Finish()
 }
@@ -425,6 +432,8 @@ func replayC02(a c02Artefact) string {
 				return "in-memory shape differs from canonical shape"
 			}
 		}
+	case "pressure":
+		return c02PressureCase(a.Backend, a.Capacity, a.Ops)
 	case "backend":
 		ev2 := ev.New("C02", "model_checking")
 		ev2.NoWrite = true
@@ -444,4 +453,134 @@ func replayC02(a c02Artefact) string {
 		}
 	}
 	return ""
+}
+
+// ---- phase 5: cache pressure over several commits ------------------------------
+
+var c02PressureBase = []byte{0x00, 0x20, 0x40, 0x50, 0x58, 0x60, 0x80, 0xa0, 0xc0, 0xe0}
+var c02PressureKeys = []byte{0x00, 0x80, 0x5c, 0x58, 0x20}
+
+// c02PressureRounds: round i < 5 reads and removes key i and commits; round 5+i inserts key i and commits.
+func c02PressureOps(rounds []int) []op {
+	var ops []op
+	for _, rd := range rounds {
+		k := []byte{c02PressureKeys[rd%5]}
+		if rd < 5 {
+			ops = append(ops, op{Op: "get", Key: k}, op{Op: "rem", Key: k}, op{Op: "commit"})
+		} else {
+			ops = append(ops, op{Op: "ins", Key: k, Val: []byte("n")}, op{Op: "commit"})
+		}
+	}
+	return ops
+}
+
+func c02PressureCase(backend string, capacity uint64, ops []op) (what string) {
+	defer func() {
+		if p := recover(); p != nil {
+			what = fmt.Sprintf("panic: %v", p)
+		}
+	}()
+	ndb, err := kv.OpenDB(backend, "")
+	if err != nil {
+		return "harness: " + err.Error()
+	}
+	defer ndb.Close()
+	c := kv.Contents{}
+	base := mkvs.New(nil, ndb, node.RootTypeState)
+	for _, k := range c02PressureBase {
+		_ = base.Insert(kv.Ctx, []byte{k}, []byte("v"))
+		c[string([]byte{k})] = []byte("v")
+	}
+	_, h, err := base.Commit(kv.Ctx, kv.Namespace, 1)
+	base.Close()
+	if err != nil {
+		return "harness: " + err.Error()
+	}
+	root := kv.RootFor(1, node.RootTypeState, h)
+	if err := ndb.Finalize([]node.Root{root}); err != nil {
+		return "harness: " + err.Error()
+	}
+	t := mkvs.NewWithRoot(nil, ndb, root, mkvs.Capacity(capacity, 0))
+	defer t.Close()
+	version := uint64(1)
+	for i, o := range ops {
+		switch o.Op {
+		case "get":
+			v, err := t.Get(kv.Ctx, o.Key)
+			if err != nil {
+				return fmt.Sprintf("step %d %s failed: %v", i, o, err)
+			}
+			want, ok := c[string(o.Key)]
+			if (v == nil) == ok || (ok && !bytes.Equal(v, want)) {
+				return fmt.Sprintf("step %d get(%x) = %q, contents hold %q (present=%v)", i, o.Key, v, want, ok)
+			}
+		case "commit":
+			version++
+			_, h, err := t.Commit(kv.Ctx, kv.Namespace, version)
+			if err != nil {
+				return fmt.Sprintf("step %d commit failed: %v", i, err)
+			}
+			if hr := kv.CanonicalRoot(c); h != hr {
+				return fmt.Sprintf("step %d: committed root %s differs from the contents-only hash %s of %s", i, h, hr, c)
+			}
+			if err := ndb.Finalize([]node.Root{kv.RootFor(version, node.RootTypeState, h)}); err != nil {
+				return fmt.Sprintf("step %d finalize failed: %v", i, err)
+			}
+		default:
+			if err := applyOp(t, c, o); err != nil {
+				return fmt.Sprintf("step %d %s failed: %v", i, o, err)
+			}
+		}
+	}
+	for k, want := range c {
+		v, err := t.Get(kv.Ctx, []byte(k))
+		if err != nil || !bytes.Equal(v, want) {
+			return fmt.Sprintf("final get(%x) = %q (err=%v), contents hold %q", k, v, err, want)
+		}
+	}
+	return ""
+}
+
+func c02Pressure(r *ev.Run, violate func(string, string, c02Artefact)) {
+	depth := 3
+	if r.Thorough() {
+		depth = 4
+	}
+	total := kv.Pow(10, depth)
+	type cfg struct {
+		be  string
+		cap uint64
+	}
+	var cfgs []cfg
+	for _, be := range kv.Backends {
+		for _, cp := range []uint64{0, 6, 7, 8} {
+			cfgs = append(cfgs, cfg{be, cp})
+		}
+	}
+	ev.ParallelRange(total*len(cfgs), r.Seed, func(i int) {
+		if r.Expired() {
+			r.Cap("deadline")
+			return
+		}
+		cf := cfgs[i%len(cfgs)]
+		x := i / len(cfgs)
+		rounds := make([]int, depth)
+		for d := 0; d < depth; d++ {
+			rounds[d] = x % 10
+			x /= 10
+		}
+		ops := c02PressureOps(rounds)
+		what := c02PressureCase(cf.be, cf.cap, ops)
+		r.Add("transitions", int64(len(ops)))
+		r.Add("states", 1)
+		r.Add("pressure_sequences", 1)
+		if what == "" {
+			return
+		}
+		if strings.HasPrefix(what, "harness:") {
+			r.HarnessError("%s", what)
+			return
+		}
+		violate(fmt.Sprintf("c02 pressure %s cap=%d %v", cf.be, cf.cap, rounds), fmt.Sprintf("%s, 10-key tree reopened with a node cache of %d, rounds %v (%v): %s", cf.be, cf.cap, rounds, ops, what), c02Artefact{Mode: "pressure", Backend: cf.be, Capacity: cf.cap, Ops: ops})
+	})
 }
